@@ -114,4 +114,39 @@ theorem pow_split (w pa pb : Nat) (hba : pb ≤ pa) (ha : pa ≤ w) :
     2 ^ (w - pb) = 2 ^ (w - pa) * 2 ^ (pa - pb) := by
   rw [← Nat.pow_add]; congr 1; omega
 
+/-- standard CIDR containment: block(a/pa) ⊆ block(b/pb) iff `pb ≤ pa` and `a`, `b` agree on the first `pb` bits -/
+theorem subset_iff_prefix (v6 : Bool) (a pa b pb : Nat) (hpa : pa ≤ width v6) (hpb : pb ≤ width v6) :
+    (∀ x, inBlock v6 a pa x → inBlock v6 b pb x) ↔
+      pb ≤ pa ∧ a / 2 ^ (width v6 - pb) = b / 2 ^ (width v6 - pb) := by
+  simp only [inBlock]
+  generalize width v6 = w at *
+  constructor
+  · intro h
+    have h1 := h a rfl
+    refine ⟨?_, h1⟩
+    by_cases hc : pb ≤ pa
+    · exact hc
+    · exfalso
+      have hk : 2 ^ (w - pa) = 2 ^ (w - pb) * 2 ^ (pb - pa) := by
+        rw [← Nat.pow_add]; congr 1; omega
+      have h2 : 2 ^ 1 ≤ 2 ^ (pb - pa) := Nat.pow_le_pow_right (by decide) (by omega)
+      have h3 : 2 ^ (w - pb) * 2 ^ 1 ≤ 2 ^ (w - pb) * 2 ^ (pb - pa) := Nat.mul_le_mul_left _ h2
+      have hpos : 0 < 2 ^ (w - pb) := Nat.two_pow_pos _
+      have hposa : 0 < 2 ^ (w - pa) := Nat.two_pow_pos _
+      generalize hKa : 2 ^ (w - pa) = Ka at *
+      generalize hKb : 2 ^ (w - pb) = Kb at *
+      generalize 2 ^ (pb - pa) = M at *
+      have hx1 : (a / Ka * Ka) / Ka = a / Ka := Nat.mul_div_cancel _ hposa
+      have hx2 : (a / Ka * Ka + Kb) / Ka = a / Ka := by
+        apply (div_eq_iff' _ _ _ hposa).mpr
+        constructor <;> omega
+      have e1 := h _ hx1
+      have e2 := h _ hx2
+      have e3 : (a / Ka * Ka + Kb) / Kb = (a / Ka * Ka) / Kb + 1 := Nat.add_div_right _ hpos
+      omega
+  · rintro ⟨hle, he⟩ x hx
+    have hk := pow_split w pa pb hle hpa
+    rw [hk] at he ⊢
+    rw [← he, ← Nat.div_div_eq_div_mul, ← Nat.div_div_eq_div_mul, hx]
+
 end Cedar.Ext.IPAddr
